@@ -1,34 +1,51 @@
 (* C06 — Object and ownership stay mutually consistent along any history.  Statements
    only.  The executable invariant (valid live object, every owned path present, no empty
-   record) is evaluated on every state the implementation produces (Driver/Hist.v).  Proved
-   so far about the model: the initial state satisfies it; the ownership-map part of the
-   invariant is preserved by every step (Proofs/UpdaterLaws.v: mf_ok and no empty record
-   after update_core). *)
+   record, no failure other than a conflict) is evaluated on every state the
+   implementation produces (Driver/Hist.v).  Proved about the model: the initial state;
+   the ownership-map part of the invariant ([records_inv]: unique managers, well-formed
+   non-empty sets) is preserved by Apply and by Update.  Not yet proved: validity of the
+   object and presence of every owned path after a step. *)
 From Coq Require Import List ZArith String Bool.
-From SMD Require Import Model.Value Model.Order Model.PathElem Model.PathSet Model.Schema
-  Model.Compare Model.Updater Spec.RefValid Spec.Resolve Proofs.OrderLaws Proofs.PathSetLaws Proofs.UpdaterLaws.
+From SMD Require Import Model.Value Model.Order Model.PathElem Model.PathSet Model.Schema Model.Walk
+  Model.FieldSet Model.Compare Model.Matcher Model.Updater Spec.PathsAsSets Spec.Examples
+  Proofs.OrderLaws Proofs.PathSetLaws Proofs.UpdaterLaws Proofs.UpdaterLaws2.
 Import ListNotations.
+Open Scope list_scope.
+From SMD Require Import Spec.RefValid.
 
 Theorem C06_initial_state : forall s tr a,
   resolve s tr = Some a -> atom_nonempty a = true ->
-  conforms s tr true VNull = true /\ mf_ok [] /\ (forall m, mf_get m [] = None).
+  conforms s tr true VNull = true /\ records_inv [].
 Proof.
   intros s tr a Hr Hne. split.
   - simpl. rewrite Hr. destruct a as [sc li ma]. exact Hne.
-  - split; [split; reflexivity | reflexivity].
+  - split; [split; reflexivity | intros m r H; discriminate H].
 Qed.
 Print Assumptions C06_initial_state.
 
-(* the ownership map stays well formed and free of empty records through the ownership
-   update of every operation (single-version case without ignore configuration) *)
-Theorem C06_ownership_map_invariant : forall c n old new ver mf w force mf' cmp n',
-  no_ignore c -> single_version ver mf -> mf_ok mf ->
-  (forall cmp0, compare_tv c old new = Some cmp0 -> cmp_ok cmp0) ->
-  update_core c n old new ver mf w force = UOk (mf', cmp, n') ->
-  mf_ok mf' /\ single_version ver mf' /\ (forall m r, mf_get m mf' = Some r -> ps_empty (mr_set r) = false).
-Proof.
-  intros c n old new ver mf w force mf' cmp n' H1 H2 H3 H4 H5.
-  destruct (update_core_records c n old new ver mf w force mf' cmp n' H1 H2 H3 H4 H5) as (_ & _ & Ha & Hb & Hc & _).
-  exact (conj Ha (conj Hb Hc)).
-Qed.
-Print Assumptions C06_ownership_map_invariant.
+Theorem C06_apply_preserves_records_inv :
+  forall (c : config) (live cfg : string * value) (ver : string) 
+           (mf : managed) (mgr : string) (force : bool) (o : option tv) 
+           (mf' : managed),
+         no_ignore c ->
+         compare_ok_wf c ->
+         fs_ok_wf c ->
+         conv_wf c ->
+         wf_value (snd live) = true ->
+         wf_value (snd cfg) = true ->
+         records_inv mf -> apply_op c live cfg ver mf mgr force = UOk (o, mf') -> records_inv mf'.
+Proof. exact apply_op_records_inv. Qed.
+Print Assumptions C06_apply_preserves_records_inv.
+
+Theorem C06_update_preserves_records_inv :
+  forall (c : config) (live new : string * value) (ver : string) 
+           (mf : managed) (mgr : string) (o : tv) (mf' : managed),
+         no_ignore c ->
+         compare_ok_wf c ->
+         conv_wf c ->
+         wf_value (snd live) = true ->
+         wf_value (snd new) = true ->
+         records_inv mf -> update_op c live new ver mf mgr = UOk (o, mf') -> records_inv mf'.
+Proof. exact update_op_records_inv. Qed.
+Print Assumptions C06_update_preserves_records_inv.
+
